@@ -39,7 +39,7 @@ fn make() -> clap::Command {
                 .allow_negative_numbers(true)
                 .value_parser(|s: &str| {
                     argset::parse_usize(s).and_then(|n| {
-                        if n >= 1 {
+                        if n >= 1 && isize::try_from(n).is_ok() {
                             Ok(n)
                         } else {
                             Err(anyhow::anyhow!("Bad number of commands to redo"))
